@@ -36,6 +36,16 @@ func c14Domains() map[string][]octosql.Value {
 	}
 }
 
+// c14ExtremeDomains: values whose running sum leaves the int64 range and comes back (OctoSQL integers and durations wrap,
+// so the result must still depend on the net multiset only). Judged against the fresh instance only: the reference
+// in this file does not define overflow semantics.
+func c14ExtremeDomains() map[string][]octosql.Value {
+	return map[string][]octosql.Value{
+		"Int":      {octosql.NewInt(math.MaxInt64), octosql.NewInt(5), octosql.NewInt(math.MinInt64)},
+		"Duration": {octosql.NewDuration(time.Duration(math.MaxInt64)), octosql.NewDuration(time.Hour), octosql.NewDuration(time.Duration(math.MinInt64))},
+	}
+}
+
 func sortedVals(vs []octosql.Value) []octosql.Value {
 	out := append([]octosql.Value{}, vs...)
 	sort.SliceStable(out, func(i, j int) bool { return refLess(out[i], out[j]) })
@@ -145,6 +155,7 @@ type aggTarget struct {
 	argType string
 	proto   func() nodes.Aggregate
 	dom     []octosql.Value
+	extreme bool
 }
 
 func c14Targets() []aggTarget {
@@ -170,6 +181,9 @@ func c14Targets() []aggTarget {
 					continue
 				}
 				out = append(out, aggTarget{name: n, argType: tn, proto: d.Prototype, dom: dom})
+				if ext, ok := c14ExtremeDomains()[tn]; ok {
+					out = append(out, aggTarget{name: n, argType: tn + "(extreme values)", proto: d.Prototype, dom: ext, extreme: true})
+				}
 			}
 		}
 	}
@@ -181,7 +195,7 @@ func init() {
 		L := r.Pick(6, 8)
 		targets := c14Targets()
 		r.Bound = map[string]interface{}{"history_length": L, "values_per_type": 3, "targets": len(targets)}
-		r.Rule = "every prefix-valid add/retract history (a retraction never exceeds the earlier additions of that value) up to the length bound over 3 values per argument type (2 for Boolean), for every aggregate descriptor x applicable argument type, replayed on a fresh instance of the real aggregate; Trigger() is read at every prefix whose net multiset is non-empty; state = history prefix; non-trivial = prefix that contains a retraction and has a non-empty net multiset"
+		r.Rule = "every prefix-valid add/retract history (a retraction never exceeds the earlier additions of that value) up to the length bound over 3 values per argument type (2 for Boolean; Int and Duration additionally over {MaxInt64, small, MinInt64}, where running sums wrap and only the comparison with a fresh instance is made), for every aggregate descriptor x applicable argument type, replayed on a fresh instance of the real aggregate; Trigger() is read at every prefix whose net multiset is non-empty; state = history prefix; non-trivial = prefix that contains a retraction and has a non-empty net multiset"
 		r.Assume("Trigger is only called while the net multiset is non-empty (the group-by protocol)", "NaN and signed zeros excluded (C09)", "float sums compared within 1e-9*sum|x|")
 		type job struct {
 			t     aggTarget
@@ -244,7 +258,11 @@ func init() {
 						continue
 					}
 					got := agg.Trigger()
-					want, tol := refAggregate(t.name, m)
+					var want octosql.Value
+					tol := 0.0
+					if !t.extreme {
+						want, tol = refAggregate(t.name, m)
+					}
 					// differential: fresh instance fed M in sorted order
 					fresh := t.proto()
 					for _, v := range sortedVals(m) {
@@ -253,6 +271,9 @@ func init() {
 					want2 := fresh.Trigger()
 					if hasRetr {
 						r.Nontrivial(fmt.Sprint(t.name, t.argType, seq[:i+1]))
+					}
+					if t.extreme {
+						want = want2
 					}
 					if !valsClose(got, want, tol) || !valsClose(got, want2, tol) {
 						cs := aggCase{Aggregate: t.name, ArgType: t.argType, Prefix: i + 1, Net: stream.ValsKey(m), Got: stream.ValKey(got), Want: stream.ValKey(want)}
